@@ -200,5 +200,7 @@ def replay(ctx, case):
         print("replay: not an S->I case (trace windows are re-validated by running the check)")
         return
     p = os.path.join(ctx.work, "one.ndjson")
-    open(p, "w").write(json.dumps({"in": c["in"], "exp": c.get("exp")}) + "\n")
+    open(p, "w").write(json.dumps({k: c[k] for k in ("in", "exp", "dev") if k in c}) + "\n")
     ctx.replay_cases("replay_server", p, label="replay")
+    for dev, n in sorted(ctx.known_witnessed.items()):
+        print("KNOWN-FINDING: property=%s %s reproduced (observation equals the recorded deviation)" % (ctx.pid, dev))
